@@ -289,10 +289,58 @@ def main(tier, seed, nproc, t0):
         if not total.violations:
             for c in cdirs:
                 pl.cleanup(c)
+    adversarial(total, seed)
     return fw.finish(PID, tier, seed, total, t0, RULE, min_evals=200,
                      assumptions=["the generator's grammar: ASCII word identifiers without digits, literals without suffix/exponent, <= 15 significant digits, "
                                   "unsuffixed integer literals <= i32::MAX (see DESIGN.md 4.4)",
                                   "independent model of the declared semantics in tools/defgen.py"])
+
+
+ADV_INT = """use quantities::prelude::*;
+#[quantity]
+#[ref_unit(Base, "b")]
+#[unit(Big, "B", 3000000000)]
+pub struct AdvInt {}
+fn main() {}
+"""
+
+
+def adversarial(total, seed):
+    """Two groups at the limits of the declared grammar, reported separately (DESIGN.md 4.4)."""
+    # (1) integer scale literal above i32::MAX
+    for b in ("f64", "dec"):
+        res, cdir, proc = pl.check_examples("c11adv", {"advint": ADV_INT}, b)
+        total.evals += 1
+        r = res["advint"]
+        if not r["ok"]:
+            if not r["errors"] and not r["artifact"]:
+                total.inconclusive.append("adversarial compile gave no verdict (%s)" % b)
+            else:
+                msg = (r["errors"][0]["message"] if r["errors"] else "?")[:160]
+                sig = {"backend": b, "kind": "adversarial_int_literal_above_i32", "class": {"kind": "adversarial_int_literal_above_i32", "backend": b}}
+                total.violation(sig, "C11 adversarial: %s: a definition with the integer scale literal 3000000000 does not compile: %s" % (b, msg),
+                                {"module": "c11", "backend": b, "kind": "program", "source": ADV_INT})
+        total.cell(b, "adversarial", "int_literal_above_i32")
+        pl.cleanup(cdir)
+    # (2) Decimal: scales that differ only beyond the resolution of f64, declared in descending order
+    d = {"name": "AdvClose", "derived": None, "doc": None, "ref": {"ident": "Base", "symbol": "b", "prefix": None, "doc": None},
+         "units": [{"ident": "Close_Hi", "symbol": "ch", "prefix": None, "scale": "0.100000000000000002", "doc": None},
+                   {"ident": "Close_Lo", "symbol": "cl", "prefix": None, "scale": "0.100000000000000001", "doc": None}],
+         "attrs": ["R", 0, 1]}
+    binp, diags, cdir = pl.build_executor("c11advclose", [{"name": "adv", "defs": [(d, None)]}], "dec")
+    total.evals += 1
+    if binp is None:
+        total.inconclusive.append("adversarial close-scale definition does not build: %s" % diags[:1])
+    else:
+        reg = registry.load("dec", {"x_core": binp})
+        ent = reg["adv::AdvClose"]
+        sc = [u["scale"] for u in ent["units"]]
+        if sc != sorted(sc):
+            sig = {"backend": "dec", "kind": "adversarial_order_beyond_f64_resolution", "class": {"kind": "adversarial_order_beyond_f64_resolution", "backend": "dec"}}
+            total.violation(sig, "C11 adversarial: dec: units with scales 0.100000000000000002 / 0.100000000000000001 (declared in this order) iterate as %s - not in non-decreasing scale order" % [u["dbg"] for u in ent["units"]],
+                            {"module": "c11", "backend": "dec", "kind": "generated", "crate": cdir})
+        total.cell("dec", "adversarial", "order_beyond_f64_resolution")
+        pl.cleanup(cdir)
 
 
 def replay(path):
